@@ -139,6 +139,9 @@ def run(ctx):
     seipdv2(ctx, P)
     primitive(ctx, P)
     trailing(ctx, P)
+    # no error of the integrity machinery is dropped on the way to the consumer (R-err of C09 restricted to the decryptor stack)
+    from rules import stream
+    stream.r_err(ctx, P, only=r'crypto::(aead|sym)::|composed::message::reader::(sym_encrypted|packet_body)|composed::message::(types|decrypt)', floor=250)
 
 
 def seipdv1(ctx, P):
@@ -185,33 +188,7 @@ def seipdv1(ctx, P):
         ok, wit = must_pass(b, fin, upd) if fin else (False, None)
         ctx.check(P + ':v1:finalize:header-hashed', 'R-seq', 'the two MDC header octets are fed to SHA-1 before finalize in finalize_data',
                   ok and bool(upd), function=b.path)
-        # A6
-        stick(ctx, P + ':v1:finalize:sticky-error', b)
-    b = ctx.body(SD + 'advance_prefix')
-    if b is not None:
-        stick(ctx, P + ':v1:advance_prefix:sticky-error', b)
-
-    b = ctx.body(SD + 'fill_inner')
-    if b is not None:
-        # Err from fill_data => *self = Error before returning
-        ok = False
-        det = {}
-        for i, t in b.calls(r'StreamDecryptorInner.*::fill_data$'):
-            d = t['d']['l']
-            for j, tt in b.switches():
-                if j in b.reach_from([t['t']]) and has_origin(b.switch_origins(j), r'call:.*::fill_data$'):
-                    names = {}
-                    for s in b.blocks[j]['s']:
-                        if s['r']['k'] == 'discr' and 'enum' in s['r']:
-                            names = {v: n for v, n in s['r']['enum']['vars']}
-                    for v, bb in tt['targets']:
-                        if names.get(v) == 'Err':
-                            errset = [x for x, _, _ in b.constructs(r'StreamDecryptorInner$', 'Error')]
-                            rets = b.returns()
-                            p_ = b.find_path(bb, set(rets), removed=frozenset(errset))
-                            ok = p_ is None and bool(errset)
-                            det = dict(witness=fmt_path(b, p_) if p_ else None)
-        ctx.check(P + ':v1:fill_inner:sticky-error', 'R-dom', 'an Err from fill_data sets the state to Error before it is returned', ok, function=b.path, **det)
+    sticky_errors(ctx, P)
 
     b = ctx.body(SD + 'fill_data')
     if b is not None:
@@ -300,6 +277,38 @@ def is_last_read_switch(b, j):
         if s['d']['l'] == o['l'] and s['r']['k'] in ('un', 'use') and 'l' in s['r']['o'][0]:
             cand.add(s['r']['o'][0]['l'])
     return any(b.r['locals'][c].get('n') == 'is_last_read' for c in cand)
+
+
+def sticky_errors(ctx, P):
+    """The SEIPDv1/SED stream decryptor poisons itself before an error leaves it (a retry after an error can never end cleanly)."""
+    b = ctx.body(SD + 'finalize_data')
+    if b is not None:
+        stick(ctx, P + ':v1:finalize:sticky-error', b)
+    b = ctx.body(SD + 'advance_prefix')
+    if b is not None:
+        stick(ctx, P + ':v1:advance_prefix:sticky-error', b)
+
+    b = ctx.body(SD + 'fill_inner')
+    if b is not None:
+        # Err from fill_data => *self = Error before returning
+        ok = False
+        det = {}
+        for i, t in b.calls(r'StreamDecryptorInner.*::fill_data$'):
+            d = t['d']['l']
+            for j, tt in b.switches():
+                if j in b.reach_from([t['t']]) and has_origin(b.switch_origins(j), r'call:.*::fill_data$'):
+                    names = {}
+                    for s in b.blocks[j]['s']:
+                        if s['r']['k'] == 'discr' and 'enum' in s['r']:
+                            names = {v: n for v, n in s['r']['enum']['vars']}
+                    for v, bb in tt['targets']:
+                        if names.get(v) == 'Err':
+                            errset = [x for x, _, _ in b.constructs(r'StreamDecryptorInner$', 'Error')]
+                            rets = b.returns()
+                            p_ = b.find_path(bb, set(rets), removed=frozenset(errset))
+                            ok = p_ is None and bool(errset)
+                            det = dict(witness=fmt_path(b, p_) if p_ else None)
+        ctx.check(P + ':v1:fill_inner:sticky-error', 'R-dom', 'an Err from fill_data sets the state to Error before it is returned', ok, function=b.path, **det)
 
 
 def stick(ctx, key, b):
@@ -398,18 +407,56 @@ def seipdv2(ctx, P):
             ok, wit = must_pass(b, oks, st)
             ctx.check(P + ':v2:decrypt:updates-%s' % fld, 'R-dom', 'every Ok exit of decrypt has updated %s' % fld, ok and bool(st), function=b.path,
                       witness=fmt_path(b, wit) if wit else None)
-        # nonce tail overwritten from chunk_index.to_be_bytes() on every ok path
+    chunk_nonce(ctx, P)
+
+
+def chunk_nonce(ctx, P):
+    """RFC 9580 §5.13.2: the chunk nonce is the derived IV followed by the big-endian 64-bit chunk index.  Both stream directions
+    overwrite the last eight nonce octets from the incremented index (copy, not a running XOR) on every successful step."""
+    import re as _re
+    for path, nm, fld in ((AD + 'decrypt', 'decrypt', r'field:ModeData::(Rfc9580|Gnupg)\.(nonce|info)$'),
+                          ('crypto::aead::encryptor::StreamEncryptor::<R>::fill_buffer', 'encrypt', r'field:StreamEncryptor\.nonce$')):
+        b = ctx.body(path)
+        if b is None:
+            continue
+        oks = ok_exit_blocks(b)
         cps = []
         for i, t in b.calls(r'copy_from_slice$'):
             og = set()
             for a in t['args']:
                 og |= b.operand_origins(a)
-            if has_origin(og, r'call:.*u64::to_be_bytes$|call:.*to_be_bytes$') and has_origin(og, r'field:ModeData::(Rfc9580|Gnupg)\.(nonce|info)$'):
+            if has_origin(og, r'call:.*u64::to_be_bytes$|call:.*to_be_bytes$') and has_origin(og, fld):
                 cps.append(i)
         xor = [i for i, k, s in b.stmts(lambda s: s['r']['k'] == 'bin' and s['r']['op'] == 'BitXor')]
-        ok, wit = must_pass(b, oks, cps + xor)
-        ctx.check(P + ':v2:decrypt:nonce-gets-chunk-index', 'R-dom', 'every Ok exit of decrypt has rewritten the nonce from the incremented chunk index',
-                  ok and len(cps) >= 1, function=b.path, witness=fmt_path(b, wit) if wit else None, count=len(cps))
+        # the GnuPG flavour XORs the index into a fresh copy of the IV (documented); the RFC 9580 arm must not depend on XOR at all
+        sinks = oks if nm == 'decrypt' else [i for i, t in b.calls(r'AeadAlgorithm::encrypt_in_place$')] or oks
+        # a helper that receives the nonce may do the rewrite (one level): it must copy to_be_bytes of its index parameter
+        helper = []
+        for i, t in b.calls():
+            callee = t['f'].get('res') or t['f'].get('fn')
+            if callee in ctx.f.bodies and callee != b.path and any(has_origin(b.operand_origins(a), fld) for a in t['args']):
+                hb = ctx.wrap(ctx.f.bodies[callee])
+                hc = [j for j, tt in hb.calls(r'copy_from_slice$')
+                      if has_origin(set().union(*[hb.operand_origins(a) for a in tt['args']]), r'call:.*to_be_bytes$')]
+                if hc and must_pass(hb, hb.returns(), hc)[0]:
+                    cps.append(i)
+                elif hb.stmts(lambda s: s['r']['k'] == 'bin' and s['r']['op'] == 'BitXor'):
+                    helper.append(callee)
+        if nm == 'decrypt':
+            ok, wit = must_pass(b, oks, cps + xor)
+        else:
+            # after every encrypted chunk the nonce is rewritten before the function can return Ok
+            ok, wit = True, None
+            for e in [i for i, t in b.calls(r'AeadAlgorithm::encrypt_in_place$')]:
+                w = b.find_path(b.blocks[e]['t']['t'], set(oks), removed=frozenset(cps))
+                if w is not None and len(cps) == 0:
+                    ok, wit = False, w
+        ctx.check(P + ':v2:%s:nonce-gets-chunk-index' % nm, 'R-dom', 'every successful %s step rewrites the last eight nonce octets from the incremented chunk index (copy of to_be_bytes)' % nm,
+                  ok and len(cps) >= 1 and not helper, function=b.path, witness=fmt_path(b, wit) if wit else None, count=len(cps),
+                  missing=('%s combines the index into the nonce with XOR instead of overwriting the last eight octets' % helper) if helper else None)
+        inc = [i for i, k, s in b.stmts(lambda s: s['r']['k'] == 'bin' and s['r']['op'].startswith('Add') and any('k' in o and o['k'].get('v') == 1 for o in s['r']['o']))
+               if has_origin(b.operand_origins(b.blocks[i]['s'][k]['r']['o'][0]), r'field:.*\.chunk_index$')]
+        ctx.check(P + ':v2:%s:chunk-index-incremented' % nm, 'R-table', 'the chunk index advances by exactly one per chunk in %s' % nm, len(inc) >= 1, function=b.path)
 
 
 def primitive(ctx, P):
